@@ -18,11 +18,19 @@ GenPlans(k) ==
   {[pres |-> p, ip |-> IpFor(k), hello |-> "full", w |-> w] : p \in Ids, w \in 1..4}     \* w: weight only (random walks pick successors uniformly)
   \cup {[pres |-> p, ip |-> IpFor(k), hello |-> h] : p \in Ids, h \in {"tok", "none"}}
   \cup {[pres |-> NoToken, ip |-> IpFor(k), hello |-> "bad"], [pres |-> Short, ip |-> IpFor(k), hello |-> "part"]}
-AllGenPlans == UNION {GenPlans(k) : k \in Carriers}
+(* The byte class of the sessions' ClientIDs and whether their KCP
+   conversation ids are equal are chosen by the environment together with the
+   first carrier (they ride on its plan record so that the behaviour's action
+   labels carry them); the model's ids stay opaque and distinct. *)
+IdShapes == {"random", "lastbyte", "firstbyte", "prefix4", "zeroff"}
+FirstPlans == {[pres |-> p.pres, ip |-> p.ip, hello |-> p.hello, shape |-> sh, conveq |-> ce] :
+                 p \in GenPlans(1), sh \in IdShapes, ce \in BOOLEAN}
+PlansOf(k) == IF k = 1 THEN FirstPlans ELSE GenPlans(k)
+AllGenPlans == UNION {PlansOf(k) : k \in Carriers}
 
 G_Open(k, pl) ==
   /\ Quiet /\ \A j \in Carriers : j < k => cli[j] # "idle"
-  /\ pl \in GenPlans(k)
+  /\ pl \in PlansOf(k)
   /\ Cardinality({j \in Carriers : cli[j] = "live"}) < MaxLive
   /\ CarrierOpen(k, pl)
 
